@@ -11,8 +11,18 @@ import Mathlib.Tactic.Linarith
 
 namespace RenoVerif.Trunc
 
-theorem thresholdM_le_len (thr : Rat) (σ : List Rat) : thresholdM thr σ ≤ σ.length :=
+theorem aboveThr_le_len (thr : Rat) (σ : List Rat) : aboveThr thr σ ≤ σ.length :=
   List.length_filter_le _ _
+
+theorem thresholdM_le_len (thr : Rat) (σ : List Rat) (hne : σ ≠ []) : thresholdM thr σ ≤ σ.length := by
+  unfold thresholdM
+  have h1 := aboveThr_le_len thr σ
+  have h2 : 1 ≤ σ.length := List.length_pos_of_ne_nil hne
+  omega
+
+/-- at least one state survives the threshold criterion (the all-zero tensor of defect D10 cannot occur) -/
+theorem thresholdM_pos (thr : Rat) (σ : List Rat) : 1 ≤ thresholdM thr σ := by
+  unfold thresholdM; omega
 
 /-- fixed criterion: never more than the configured limit of that bond, never more than available -/
 theorem fixedM_le (maxDims : List Nat) (n idx : Nat) (left : Bool) (m : Nat)
@@ -44,9 +54,9 @@ theorem computeM_le_limit (crit : Criteria) (hc : crit ≠ .threshold) (thr : Ra
       exact ⟨lim, hl, by omega⟩
 
 theorem computeM_le_len (crit : Criteria) (thr : Rat) (maxDims : List Nat) (σ : List Rat) (idx : Nat)
-    (left : Bool) (m : Nat) (h : computeM crit thr maxDims σ idx left = some m) : m ≤ σ.length := by
+    (left : Bool) (m : Nat) (hne : σ ≠ []) (h : computeM crit thr maxDims σ idx left = some m) : m ≤ σ.length := by
   cases crit with
-  | threshold => simp only [computeM, Option.some.injEq] at h; subst h; exact thresholdM_le_len _ _
+  | threshold => simp only [computeM, Option.some.injEq] at h; subst h; exact thresholdM_le_len _ _ hne
   | fixed => exact (fixedM_le _ _ _ _ _ h).1
   | both =>
     simp only [computeM] at h
@@ -54,7 +64,7 @@ theorem computeM_le_len (crit : Criteria) (thr : Rat) (maxDims : List Nat) (σ :
     | none => rw [hf] at h; simp at h
     | some f =>
       rw [hf] at h; simp only [Option.map_some, Option.some.injEq] at h
-      have := thresholdM_le_len thr σ; omega
+      have := thresholdM_le_len thr σ hne; omega
 
 /-- `both` is the smaller of the two counts -/
 theorem computeM_both (thr : Rat) (maxDims : List Nat) (σ : List Rat) (idx : Nat) (left : Bool) (f : Nat)
@@ -84,9 +94,9 @@ theorem threshold_prefix (c : Rat) : ∀ (σ : List Rat), σ.Pairwise (· ≥ ·
         linarith
       simp [List.filter_cons, h, hall]
 
-/-- the threshold criterion can keep NO state (flat spectrum of 2 entries, threshold 0.9):
-    recorded as defect D10 — `compress` then asserts on an all-zero tensor -/
-theorem threshold_can_keep_nothing : thresholdM (9/10) [1, 1] = 0 := by decide +kernel
+/-- no entry of a flat two-entry spectrum exceeds the threshold 0.9 (the situation of defect D10):
+    the kept count is nevertheless 1 -/
+theorem flat_spectrum_keeps_one : aboveThr (9/10) [1, 1] = 0 ∧ thresholdM (9/10) [1, 1] = 1 := by decide +kernel
 
 theorem normSq_append (a b : List Rat) : normSq (a ++ b) = normSq a + normSq b := by
   induction a with
